@@ -14,9 +14,14 @@ ALL = ["C%02d" % i for i in range(1, 21)]
 def main():
     checks = []
     claimed = set()
+    # fragments are written by the per-property workers; a property is claimed only once the integrator
+    # has validated its check (several seeds, green on /repo) and listed it in _claimed.json
+    allowed = set(json.load(open(os.path.join(HERE, "manifest.d", "_claimed.json"))))
     for f in sorted(glob.glob(os.path.join(HERE, "manifest.d", "C*.json"))):
         c = json.load(open(f))
         pid = c["property_id"]
+        if pid not in allowed:
+            continue
         claimed.add(pid)
         c.setdefault("quick_cmd", "./check %s --tier quick" % pid)
         c.setdefault("thorough_cmd", "./check %s --tier thorough" % pid)
